@@ -355,3 +355,5 @@ def _u5b(led, rid, ctx):
     run_rule(led, "S13", "WAKE: each watcher loop of the nogood propagator looks at exactly the watchers whose predicate became true (decided on all old/new domain pairs of a 5-value universe)", watchrules.wake, ctx)
     run_rule(led, "S14", "READD: loops that copy nogood watchers back run to the number of watchers", watchrules.readd, ctx)
     run_rule(led, "S5c", "a watcher registration is skipped only for an identical (propagator, local id) pair", s5c, ctx)
+    from . import C09 as _C09
+    run_rule(led, "S15", "LINFORM: the arithmetic constraint builders mean what they say (shared with C09-R10)", _C09.r10, ctx)
